@@ -8,11 +8,155 @@ import hyd
 import netgen
 
 
+# ----------------------------------------------------------------------------- bucket family (TankCtl.tla): M + R
+LU = 0.5e-4            # one level unit in metres
+FU = 0.005             # one flow unit in m3/s (tank area 100 m2: one flow unit moves the level one unit per second)
+DIAM = 11.283791670955125   # 2*sqrt(100/pi)
+
+
+def bucket_scenarios(rnd, n):
+    out = []
+    for k in range(n):
+        lo, hi = rnd.choice([96001, 98001, 99001]), rnd.choice([102001, 105001, 109001])
+        ctl = [{"rel": "<", "thr": lo, "val": 1, "prio": 3}, {"rel": ">", "thr": hi, "val": 0, "prio": rnd.choice([1, 3, 5])}]
+        if rnd.random() < 0.5:      # a third threshold above, commanding the opposite with lower / equal / higher priority
+            ctl.append({"rel": ">", "thr": rnd.choice([103001, 107001, 111001]), "val": 1, "prio": rnd.choice([1, 3, 5])})
+        if rnd.random() < 0.3:      # a second low threshold (two thresholds crossed in one step while draining)
+            ctl.append({"rel": "<", "thr": rnd.choice([93001, 95001]), "val": 1, "prio": 3})
+        steps = rnd.choice([4, 5, 6])
+        env = [{"fin": rnd.choice([2, 4]), "dout": rnd.choice([0, 2, 4])} for _ in range(steps + 1)]
+        out.append({"id": k + 1, "H": 3600, "steps": steps, "ctl": ctl, "init": rnd.choice([98000, 100000, 104000]),
+                    "st0": rnd.choice([0, 1]), "env": env})
+    return out
+
+
+def bucket_expected(scns, ck):
+    import json, os
+    import concurrent.futures as cf
+    parts = common.chunks(scns, common.NCPU)
+    cfg = ("SPECIFICATION Spec\nINVARIANT CtlConsistent\nINVARIANT NoOvershoot\nINVARIANT TankStep\nINVARIANT TimesIncrease\n"
+           "INVARIANT TrialsBounded\nINVARIANT Emit\nCHECK_DEADLOCK FALSE\n")
+
+    def one(part):
+        wd = common.subdir("c05b_%d" % part[0]["id"])
+        p = os.path.join(wd, "scn.json")
+        with open(p, "w") as f:
+            json.dump(part, f)
+        return common.run_tlc("TankCtl", cfg, workers=1, env={"SCN": p, "EMIT": "1"}, workdir=wd)
+    exp, bad = {}, []
+    with cf.ThreadPoolExecutor(max_workers=common.NCPU) as ex:
+        for r in ex.map(one, parts):
+            ck.add_tlc(r)
+            if r.violation:
+                bad.append(r.out[-1500:])
+            for tag, obj in r.prints:
+                if tag == "ROWS":
+                    exp[obj["id"]] = obj["rows"]
+    return exp, bad
+
+
+def bucket_observe(s):
+    w = common.import_wntr()
+    C = w.network.controls
+    try:
+        wn = w.network.WaterNetworkModel()
+        wn.add_pattern("pin", [float(e["fin"]) for e in s["env"]])
+        wn.add_pattern("pout", [float(e["dout"]) for e in s["env"]])
+        wn.add_tank("T", elevation=0.0, init_level=s["init"] * LU, min_level=0.0, max_level=30.0, diameter=DIAM)
+        wn.add_junction("JD", base_demand=FU, demand_pattern="pout", elevation=0.0)
+        wn.add_junction("JS", base_demand=-FU, demand_pattern="pin", elevation=0.0)
+        wn.add_pipe("PD", "T", "JD", length=10.0, diameter=0.6, roughness=130)
+        wn.add_pipe("L", "JS", "T", length=10.0, diameter=0.6, roughness=130, initial_status="OPEN" if s["st0"] else "CLOSED")
+        t = wn.options.time
+        t.hydraulic_timestep = t.pattern_timestep = s["H"]
+        t.report_timestep = "ALL"
+        t.duration = s["steps"] * s["H"]
+        for i, c in enumerate(s["ctl"]):
+            act = C.ControlAction(wn.get_link("L"), "status", w.network.LinkStatus.Open if c["val"] else w.network.LinkStatus.Closed)
+            wn.add_control("c%d" % i, C.Control(C.ValueCondition(wn.get_node("T"), "level", c["rel"], c["thr"] * LU), act, priority=c["prio"]))
+        import simnet
+        res, _ = simnet.run_wntr(w, wn)
+        if res.error_code is not None:
+            return {"id": s["id"], "err": True}
+        return {"id": s["id"], "rows": [{"t": int(tt), "level": float(res.node["pressure"]["T"].iloc[i]) / LU,
+                                          "st": int(res.link["status"]["L"].iloc[i] != 0)}
+                                         for i, tt in enumerate(res.node["pressure"].index)]}
+    except Exception as e:
+        return {"id": s["id"], "exc": "%s: %s" % (type(e).__name__, str(e)[:120])}
+
+
+def bucket_family(ck, tier, rnd):
+    import concurrent.futures as cf
+    scns = bucket_scenarios(rnd, 400 if tier == "quick" else 12000)
+    exp, bad = bucket_expected(scns, ck)
+    for b in bad:
+        ck.violation("C05.model", "TankCtl.tla invariant violated", {"tlc": b})
+    with cf.ProcessPoolExecutor(max_workers=common.NCPU) as ex:
+        obs = list(ex.map(bucket_observe, scns, chunksize=8))
+    for s, o in zip(scns, obs):
+        e = exp.get(s["id"])
+        if e is None:
+            continue
+        shape = "ctl=%s st0=%d" % ("/".join("%s%d:%d@%d" % (c["rel"], c["thr"], c["val"], c["prio"]) for c in s["ctl"]), s["st0"])
+        if "exc" in o or o.get("err"):
+            ck.violation("C05.bucket_run", shape + " :: " + o.get("exc", "not converged"), {"bucket": s})
+            continue
+        ck.count("bucket_runs")
+        if any(r["t"] % s["H"] for r in e):
+            ck.count("bucket_runs_with_partial_step")
+        got = [(r["t"], r["st"]) for r in o["rows"]]
+        want = [(r["t"], r["st"]) for r in e]
+        if got != want:
+            ck.violation("C05.bucket_timeline", "%s :: times/statuses %s expected %s" % (shape, got[:8], want[:8]), {"bucket": s, "expected": e})
+        elif any(abs(a["level"] - b["level"]) > 0.02 for a, b in zip(o["rows"], e)):
+            ck.violation("C06.bucket_levels", shape + " :: levels differ from the Euler integration of the model", {"bucket": s, "expected": e})
+        ck.nontrivial(["bucket", s["ctl"], s["env"], s["init"], s["st0"]])
+    return len(scns)
+
+
+def isolation_scenario(rnd, sid):
+    """a dead-end junction that a tank-level control cuts off, with a pressure control on it that must open a stand-by pipe
+    in the very step in which its (zeroed) pressure first satisfies the condition"""
+    import c02
+    s = c02.base(sid, rnd.choice(["default", "piecewise"]))
+    s["patterns"] = {}
+    s["H"] = rnd.choice([1800, 3600])
+    s["Pat"] = s["H"]
+    s["Dur"] = s["H"] * rnd.randint(6, 10)
+    s["Rs"] = rnd.choice([360, 700])
+    lvl0 = netgen.rgrid(rnd, 2, 3, 0.25)
+    s["nodes"] = [{"name": "R0", "type": "R", "elev": 0.0, "head": netgen.rgrid(rnd, 60, 80, 5), "pat": ""},
+                  {"name": "T0", "type": "T", "elev": 30.0, "minl": 0.0, "maxl": 12.0, "init": lvl0, "diam": netgen.rgrid(rnd, 4, 8, 1),
+                   "vcurve": [], "leak": {"on": False, "area": 0.0, "cd": 0.75, "start": -1, "end": -1}},
+                  c02.junction("J0", 5.0, [{"base": 0.002, "pat": ""}]), c02.junction("J1", 5.0, [{"base": 0.003, "pat": ""}]),
+                  c02.junction("JX", netgen.rgrid(rnd, 0, 10, 2.5), [{"base": netgen.rgrid(rnd, 0.001, 0.004, 0.001), "pat": ""}])]
+
+    def pipe(name, a, b, init=1, L=300.0, d=0.3):
+        return {"name": name, "type": "pipe", "a": a, "b": b, "len": L, "diam": d, "rough": 100.0, "minor": 0.0, "cv": False, "init": init}
+    s["links"] = [pipe("P0", "R0", "J0", L=netgen.rgrid(rnd, 500, 1500, 100), d=0.25), pipe("P1", "J0", "J1"), pipe("PT", "J0", "T0", d=0.4),
+                  pipe("PX", "J1", "JX"), pipe("P3", "J0", "JX", init=0)]
+    s["cctl"] = [{"node": "T0", "attr": "level", "rel": ">", "thr": lvl0 + netgen.rgrid(rnd, 0.5, 2.5, 0.25), "link": "PX", "what": "status",
+                  "val": 0, "prio": 3},
+                 {"node": "JX", "attr": "pressure", "rel": "<", "thr": netgen.rgrid(rnd, 5, 15, 2.5), "link": "P3", "what": "status",
+                  "val": 1, "prio": 3}]
+    return s
+
+
 def main(tier, replay):
     ck = common.Check("C05", "model_checking", tier)
     rnd = random.Random(common.SEED + 505)
     props = ["C05"]
-    if replay:
+    if not replay:
+        nb = bucket_family(ck, tier, rnd)
+        ck.cov["traces_validated_against_impl"] += ck.cov["counters"].get("bucket_runs", 0)
+    if replay and "bucket" in common.load_replay(replay)["detail"]:
+        b = common.load_replay(replay)["detail"]["bucket"]
+        exp, bad = bucket_expected([b], ck)
+        o = bucket_observe(b)
+        if [(r["t"], r["st"]) for r in o.get("rows", [])] != [(r["t"], r["st"]) for r in exp[b["id"]]]:
+            ck.violation("C05.bucket_timeline", "replay", {"bucket": b})
+        scns = []
+    elif replay:
         scns = [common.load_replay(replay)["detail"]["scn"]]
     else:
         scns = []
@@ -21,6 +165,7 @@ def main(tier, replay):
                                                                   "level_controls", "vcurve"})
             if s["cctl"]:
                 scns.append(s)
+        scns += [isolation_scenario(rnd, 8000 + i) for i in range(30 if tier == "quick" else 600)]
     good = hyd.validate(ck, "C05", scns, props)
     for s, rows in good:
         for c in s["cctl"]:
